@@ -267,6 +267,29 @@ pub fn alphabet(name: &str) -> Vec<Op> {
             ops.dedup();
             ops
         }
+        "SHARE" => vec![
+            // parents whose children share slots with a (to be) symmetric / redundant sibling
+            Op::Add(b(f(0, 1), h(0))),
+            Op::Add(b(f(0, 1), h(1))),
+            Op::Add(b(h(0), f(0, 1))),
+            Op::Add(b(f(0, 1), f(1, 2))),
+            Op::Add(b(f(0, 1), f(0, 2))),
+            Op::Add(b(t3(0, 1, 2), h(0))),
+            Op::Add(b(t3(0, 1, 2), f(1, 0))),
+            Op::Add(lam(100, b(f(100, 0), h(100)))),
+            Op::Add(lam(100, b(f(100, 0), h(0)))),
+            Op::Add(u(b(f(0, 1), h(0)))),
+            Op::Union(f(0, 1), f(1, 0)),
+            Op::Union(f(0, 1), f(0, 2)),
+            Op::Union(t3(0, 1, 2), t3(1, 2, 0)),
+            Op::Union(t3(0, 1, 2), t3(1, 0, 2)),
+            Op::Union(t3(0, 1, 2), t3(0, 1, 3)),
+            Op::Union(h(0), h(1)),
+            Op::Union(f(0, 1), g(0, 1)),
+            Op::Union(g(0, 1), g(1, 0)),
+            Op::Union(b(f(0, 1), h(0)), g(0, 1)),
+            Op::Union(b(f(0, 1), h(0)), b(h(0), f(0, 1))),
+        ],
         "MICRO" => vec![
             Op::Union(t3(0, 1, 2), t3(1, 2, 0)),       // 3-cycle
             Op::Union(t3(0, 1, 2), t3(1, 0, 2)),       // transposition
